@@ -110,19 +110,27 @@ func vfGenStream(fromClient bool, pmce bool, M int, lens []int, tier int) *vfGen
 		if comp && n > 2 {
 			blk = vfPick([]int{0, 2})
 		}
-		shape := vfFragShapes[vfChoose(len(vfFragShapes))]
+		shapes := vfFragShapes
+		if vfParam("small", 0) == 1 {
+			shapes = [][]int{{-1}, {1, -1}, {0, 2, -1}}
+		}
+		shape := shapes[vfChoose(len(shapes))]
 		frags := make([]int, len(shape))
 		copy(frags, shape)
 		ctlAfter := -1
 		ctlOp := PingMessage
 		var cp []byte
-		switch vfChoose(4) {
+		nctl := 4
+		if vfParam("small", 0) == 1 {
+			nctl = 3
+		}
+		switch vfChoose(nctl) {
 		case 1:
-			ctlAfter = -2
-		case 2:
 			ctlAfter = 0
 			ctlOp = PongMessage
 			cp = vfBytes(2)
+		case 2:
+			ctlAfter = -2
 		case 3:
 			ctlAfter = len(frags) - 1
 			cp = vfBytes(1)
@@ -136,6 +144,7 @@ type vfCtlEvent struct {
 	op      int
 	payload string
 	msgs    int // messages fully delivered before it
+	bytes   int // bytes of the current message delivered before it (read program 1)
 }
 
 // vfH_read_e2e (C03): the reader against any conformant stream from the
@@ -151,6 +160,9 @@ func vfH_read_e2e() {
 	lens := []int{0, 1, 5}
 	if tier >= 1 {
 		lens = []int{0, 1, 2, 5, 9, 130}
+	}
+	if vfParam("small", 0) == 1 {
+		lens = []int{0, 3}
 	}
 	g := vfGenStream(readerIsServer, pmce, M, lens, tier)
 	tc := vfNewConn(g.wire)
@@ -171,8 +183,15 @@ func vfH_read_e2e() {
 	}
 	var events []vfCtlEvent
 	delivered := 0
-	rc.SetPingHandler(func(s string) error { events = append(events, vfCtlEvent{PingMessage, s, delivered}); return nil })
-	rc.SetPongHandler(func(s string) error { events = append(events, vfCtlEvent{PongMessage, s, delivered}); return nil })
+	curBytes := 0
+	rc.SetPingHandler(func(s string) error {
+		events = append(events, vfCtlEvent{PingMessage, s, delivered, curBytes})
+		return nil
+	})
+	rc.SetPongHandler(func(s string) error {
+		events = append(events, vfCtlEvent{PongMessage, s, delivered, curBytes})
+		return nil
+	})
 	rp := vfChoose(4) // 0 ReadMessage, 1 NextReader+Read(a), 2 abandon after k bytes, 3 Join
 	a := vfPick([]int{1, 3, 200})
 	if rp == 3 {
@@ -212,7 +231,37 @@ func vfH_read_e2e() {
 				delivered = i + 1
 				continue
 			}
-			g1, ok := vfReadOne(rc, rp, a)
+			var g1 vfGot
+			var ok bool
+			if rp == 1 && a == 1 && !m.comp {
+				// byte-wise reading, tracking how much of the message was delivered
+				// when each handler ran
+				curBytes = 0
+				mt, r, err := rc.NextReader()
+				ok = err == nil
+				g1.mt = mt
+				if ok {
+					var b1 [1]byte
+					for k := 0; ; k++ {
+						n, err := r.Read(b1[:])
+						if n == 1 {
+							g1.data = append(g1.data, b1[0])
+							curBytes++
+						}
+						if err == io.EOF {
+							break
+						}
+						if err != nil {
+							g1.err = err
+							break
+						}
+						vfAssert(k < 4*len(m.data)+16, "reader-makes-progress")
+					}
+				}
+				curBytes = 0
+			} else {
+				g1, ok = vfReadOne(rc, rp, a)
+			}
 			vfAssert(ok, "c03-message-arrives")
 			vfAssert(g1.err == nil, "c03-eof-at-true-end")
 			vfAssert(g1.mt == m.mt, "c03-type")
@@ -229,6 +278,12 @@ func vfH_read_e2e() {
 		if i < len(events) {
 			vfAssert(events[i].op == c.op, "c08-control-order")
 			vfAssert(vfAllEq([]byte(events[i].payload), c.payload), "c08-control-payload")
+			if rp == 1 && a == 1 && c.inMsg && !g.msgs[c.msgIndex].comp {
+				vfAssert(events[i].bytes == c.dataSeen, "c08-control-position-relative-to-data")
+			}
+			if (rp == 0 || rp == 1) && c.inMsg {
+				vfAssert(events[i].msgs == c.msgIndex, "c08-control-position-relative-to-messages")
+			}
 		}
 	}
 	vfReach("read-e2e-end")
@@ -338,4 +393,195 @@ func vfH_fault_read() {
 	} else {
 		vfReach("fault-read-all-complete")
 	}
+}
+
+// vfH_limit_history (C06.H2): symbolic read limit L; message A (within the
+// limit) treated in any way by the application, then message B (within the
+// limit) must be readable in full, then message C (over the limit) must fail
+// with ErrReadLimit after at most L bytes and a 1009 close.
+func vfH_limit_history() {
+	vfInit()
+	vfClockMaxStep(int64(writeWait) / 4)
+	readerIsServer := vfChoose(2) == 1
+	L := vfI64()
+	vfAssume(L >= 1)
+	vfAssume(L <= 12)
+	shapes := [][]int{{2}, {1, 2}, {2, 0, 1}, {0, 3}, {3, 3, 3}}
+	g := &vfGen{fromClient: readerIsServer}
+	sum := func(f []int) int {
+		s := 0
+		for _, x := range f {
+			s += x
+		}
+		return s
+	}
+	fa := shapes[vfChoose(len(shapes))]
+	fb := shapes[vfChoose(len(shapes))]
+	fc := shapes[vfChoose(len(shapes))]
+	vfAssume(int64(sum(fa)) <= L)
+	vfAssume(int64(sum(fb)) <= L)
+	vfAssume(int64(sum(fc)) > L)
+	pingInA := -1
+	if vfChoose(2) == 1 {
+		pingInA = 0
+	}
+	mk := func(f []int) []int { return append(append([]int(nil), f[:len(f)-1]...), -1) }
+	g.message(TextMessage, vfBytes(sum(fa)), false, 0, mk(fa), pingInA, PingMessage, vfBytes(2))
+	g.message(BinaryMessage, vfBytes(sum(fb)), false, 0, mk(fb), -1, 0, nil)
+	g.message(TextMessage, vfBytes(sum(fc)), false, 0, mk(fc), -1, 0, nil)
+	tc := vfNewConn(g.wire)
+	if vfChoose(2) == 1 {
+		tc.chunkMode = vfChunkOne
+	}
+	rc := vfReaderConn(tc, readerIsServer, 125)
+	rc.SetReadLimit(L)
+	rc.SetPingHandler(func(string) error { return nil })
+	// message A: read fully | one byte | not at all
+	mt, r, err := rc.NextReader()
+	vfAssert(err == nil && mt == TextMessage, "c06-within-limit-message-readable")
+	switch vfChoose(3) {
+	case 0:
+		buf := make([]byte, 64)
+		n, err := io.ReadFull(r, buf)
+		vfAssert(err == io.ErrUnexpectedEOF || (err == io.EOF && n == 0), "c06-within-limit-message-readable")
+		vfAssert(n == sum(fa), "c06-within-limit-message-complete")
+		vfAssert(vfAllEq(buf[:n], g.msgs[0].data), "c06-payload")
+	case 1:
+		if sum(fa) > 0 {
+			var b1 [1]byte
+			n, err := r.Read(b1[:])
+			vfAssert(n == 1 && err == nil, "c06-within-limit-message-readable")
+		}
+	}
+	// message B: must be readable in full whatever happened to A
+	mt, p, err := rc.ReadMessage()
+	vfAssert(err == nil, "c06-next-message-within-limit-readable")
+	vfAssert(mt == BinaryMessage, "c06-type")
+	vfAssert(len(p) == sum(fb), "c06-next-message-complete")
+	vfAssert(vfAllEq(p, g.msgs[1].data), "c06-payload")
+	nwBefore := tc.nWrites()
+	// message C exceeds the limit
+	mt, r, err = rc.NextReader()
+	var delivered []byte
+	if err == nil {
+		buf := make([]byte, 64)
+		var n int
+		n, err = io.ReadFull(r, buf)
+		delivered = buf[:n]
+	}
+	vfAssert(err == ErrReadLimit, "c06-over-limit-fails-with-errreadlimit")
+	vfAssert(int64(len(delivered)) <= L, "c06-at-most-limit-bytes-delivered")
+	vfAssert(vfAllEq(delivered, g.msgs[2].data[:len(delivered)]), "c06-payload")
+	// the frame that crosses the limit was refused before its payload was consumed:
+	// what was delivered is exactly the frames before the crossing one
+	vfAssert(tc.nWrites() == nwBefore+1, "c06-1009-sent")
+	w := tc.wire()
+	f, _, ok := specDecodeFrame(w, len(w)-len(tc.ops[len(tc.ops)-1].data))
+	vfAssert(ok && f.opcode == 8 && f.length >= 2, "c06-1009-sent")
+	vfAssert(int(f.payload[0])<<8|int(f.payload[1]) == 1009, "c06-1009-sent")
+	_, _, err2 := rc.NextReader()
+	vfAssert(err2 == ErrReadLimit, "c06-error-is-sticky")
+	vfReach("limit-history-end")
+}
+
+
+// vfH_violation_after_message (C04.H2): a complete message is delivered
+// intact, then a frame of each violation class fails the read; nothing of the
+// violating frame is delivered or dispatched; a 1002 close goes out (except for
+// a length with the top bit set); the error is permanent.
+func vfH_violation_after_message() {
+	vfInit()
+	vfClockMaxStep(int64(writeWait) / 4)
+	readerIsServer := vfChoose(2) == 1
+	g := &vfGen{fromClient: readerIsServer}
+	g.message(TextMessage, vfBytes(3), false, 0, []int{1, -1}, -1, 0, nil)
+	cls := vfChoose(11)
+	inMsg := cls == 5
+	if inMsg {
+		// an unfinished message precedes the violating frame
+		g.frame(false, false, BinaryMessage, vfBytes(2))
+	}
+	good := g.fromClient
+	key := g.key()
+	pl := vfBytes(2)
+	noClose := false
+	var bad []byte
+	switch cls {
+	case 0:
+		bad = specEncodeFrame(true, false, TextMessage, good, key, pl)
+		bad[0] |= 0x20 // RSV2
+	case 1:
+		bad = specEncodeFrame(true, false, TextMessage, good, key, pl)
+		bad[0] |= 0x10 // RSV3
+	case 2:
+		bad = specEncodeFrame(true, false, 3+vfChoose(5), good, key, pl) // reserved opcode
+	case 3:
+		bad = specEncodeFrame(false, false, PingMessage, good, key, pl) // fragmented control
+	case 4:
+		bad = specEncodeFrame(true, false, PingMessage, good, key, make([]byte, 126)) // oversized control
+	case 5:
+		bad = specEncodeFrame(true, false, TextMessage, good, key, pl) // new data frame inside a message
+	case 6:
+		bad = specEncodeFrame(true, false, 0, good, key, pl) // continuation with no message
+	case 7:
+		bad = specEncodeFrame(true, false, TextMessage, !good, key, pl) // wrong masking
+	case 8:
+		code := vfU16()
+		vfAssume(specCloseMustReject(int(code)))
+		bad = specEncodeFrame(true, false, CloseMessage, good, key, []byte{byte(code >> 8), byte(code)})
+	case 9:
+		r := vfBytes(3)
+		vfAssume(!specUTF8ValidT(r))
+		bad = specEncodeFrame(true, false, CloseMessage, good, key, []byte{0x03, 0xe8, r[0], r[1], r[2]})
+	case 10:
+		// 64-bit length with the top bit set
+		bad = []byte{0x82, 127, 0x80 | vfByte(), vfByte(), vfByte(), vfByte(), vfByte(), vfByte(), vfByte(), vfByte()}
+		if good {
+			bad[1] |= 0x80
+			bad = append(bad, key[:]...)
+		}
+		noClose = true
+	}
+	g.wire = append(g.wire, bad...)
+	g.wire = append(g.wire, specEncodeFrame(true, false, TextMessage, good, g.key(), vfBytes(1))...)
+	tc := vfNewConn(g.wire)
+	if vfChoose(2) == 1 {
+		tc.chunkMode = vfChunkOne
+	}
+	rc := vfReaderConn(tc, readerIsServer, 125)
+	handled := 0
+	rc.SetPingHandler(func(string) error { handled++; return nil })
+	rc.SetPongHandler(func(string) error { handled++; return nil })
+	rc.SetCloseHandler(func(int, string) error { handled++; return nil })
+	mt, p, err := rc.ReadMessage()
+	vfAssert(err == nil && mt == TextMessage, "c04-message-before-violation-delivered")
+	vfAssert(vfAllEq(p, g.msgs[0].data), "c04-message-before-violation-intact")
+	var err2 error
+	if inMsg {
+		var r io.Reader
+		_, r, err2 = rc.NextReader()
+		vfAssert(err2 == nil, "c04-unfinished-message-starts")
+		var buf [8]byte
+		var n int
+		n, err2 = io.ReadFull(r, buf[:])
+		vfAssert(n == 2, "c04-only-bytes-before-violation-delivered")
+	} else {
+		var p2 []byte
+		_, p2, err2 = rc.ReadMessage()
+		vfAssert(len(p2) == 0, "c04-nothing-from-violating-frame-delivered")
+	}
+	vfAssert(err2 != nil && err2 != io.EOF && err2 != io.ErrUnexpectedEOF, "c04-violation-fails-the-read")
+	vfAssert(handled == 0, "c04-no-handler-for-violating-frame")
+	if noClose {
+		vfAssert(err2 == ErrReadLimit, "c06-top-bit-length-is-read-limit-error")
+	} else {
+		vfCheckCloseSent(tc, readerIsServer, 1002, "c04")
+	}
+	nw := tc.nWrites()
+	_, r3, err3 := rc.NextReader()
+	_, r4, err4 := rc.NextReader()
+	vfAssert(err3 == err2 && err4 == err2, "c04-error-is-sticky")
+	vfAssert(r3 == nil && r4 == nil && handled == 0, "c04-nothing-delivered-after-error")
+	vfAssert(tc.nWrites() == nw, "c04-nothing-written-after-error")
+	vfReach("violation-after-message-end")
 }
